@@ -171,6 +171,18 @@ PROPS = {
         ],
         'assumptions': ['UTF-8 lemmas admitted (see C08)', 'unsafe get_unchecked is given the same precondition as checked slicing (R3 shim)'],
     },
+    'C10': {
+        'level': 'proof',
+        'level_text': 'Verus proves on the real Tracker (bodies verbatim): prepare implements the furthest-position rule (tracked position = maximum seen, attempts dropped exactly when a further position arrives, never moves backwards); the reporting entry points (empty_stack, out_of_bound, repeat_too_many_times) and record_during_with keep the position monotone and inside the same input, keep the rule-frame stack balanced and the polarity unchanged; during/positive_during/negative_during and record_during_with run their closure exactly once on the tracker and return its result unchanged (this is also the soundness lemma of rewrite R1). Positions come from Inputs satisfying the boundary invariant (C09). Truthfulness of the listed rules, rendering (String/format!, BTreeMap) and determinism are bounded stand-ins (differential enumeration on generated parsers).',
+        'level_note': NOTE_COMMON + 'The attempts map (BTreeMap) and per-entry vectors are opaque: clear/get_entry/record are contract-only stubs (assumed). Position::cmp shim. "Every listed rule really fails/matches there" is not decided by any contract (only location, bounds, rendering, determinism within the bound).',
+        'technique': TECH,
+        'verus': ['tracker', 'wrappers'],
+        'expanded': False,
+        'kani': [],
+        'native': [NB_GEN],
+        'assumptions': ['contracts of Tracker::clear / get_entry / record are assumed (BTreeMap has no vstd model)',
+                        'truthfulness of expected/unexpected rule lists is not decided (only location, bounds, rendering, determinism within the bound)'],
+    },
     'C12': {
         'level': 'other',
         'level_text': 'Bounded stand-in only: the contract "line_col / line_of return what pest::Position returns" is checked by exhaustive native enumeration of every string of at most 6 (quick) / 7 (thorough) characters over {LF, CR, 1-, 2-, 3-, 4-byte character} and every boundary offset — the quantifier the property itself names. The functions use iterator adapters (peekable, char_indices().rev().skip_while().find()) that Verus has no specification for, and CBMC on them is intractable beyond L=3; no unbounded proof is claimed.',
@@ -329,5 +341,3 @@ NOT_APPLICABLE = {
     'C16': 'getter code is assembled as TokenStreams by the generator (graph.rs); property is about behaviour of emitted accessors for every grammar — no contract over quote! output is expressible; would be translation validation, a different family (DESIGN.md §6)',
     'C20': 'relation between separate generator runs / separately compiled option combinations; outside any single-function contract (DESIGN.md §6)',
 }
-for _p in ['C10']:
-    NOT_APPLICABLE.setdefault(_p, 'not built yet in this session (planned in DESIGN.md §5); not claimed until its check exists')
